@@ -22,7 +22,7 @@
 From Coq Require Import List Arith ZArith Bool.
 Import ListNotations.
 From MV Require Import Geometry.RankDet Base.Graph Base.Cover Base.ZV3 Geometry.Dimensionality Geometry.DimensionalityProofs
-  Geometry.DimensionalityInvariance Geometry.RankElim Geometry.VoltageLattice Geometry.InvarianceFull Geometry.Extend Geometry.DispTensor Geometry.DimFromTensor.
+  Geometry.DimensionalityInvariance Geometry.RankElim Geometry.VoltageLattice Geometry.InvarianceFull Geometry.Extend Geometry.DispTensor Geometry.DimFromTensor Geometry.Sublattice.
 From Coq Require Import QArith.
 Local Open Scope nat_scope.
 
@@ -358,3 +358,21 @@ Proof.
   split; vm_compute; reflexivity.
 Qed.
 Print Assumptions C09_on_C10_tables_example.
+
+(* supercells, lattice-level half: a sublattice of finite index has the same integer rank.  PARTIAL with respect to the
+   supercell clause of the property: that the supercell construction of a network has L /\ M.Z^3 as its lattice of
+   self-translations (and stays connected) is evaluated on every generated base/supercell pair, not proved *)
+Theorem C09_sublattice_same_rank_partial :
+  forall d vs vs', d <> 0%Z -> (forall v, In v vs' -> span vs v) -> (forall v, In v vs -> span vs' (oscale d v)) -> rankZ vs' = rankZ vs.
+Proof. exact sublattice_same_rankZ. Qed.
+Print Assumptions C09_sublattice_same_rank_partial.
+Theorem C09_supercell_lattice_rank_partial :
+  forall d M vs ws, d <> 0%Z -> udet M <> 0%Z ->
+  (forall w, In w ws -> span vs (lin M w)) -> (forall v, In v vs -> span (map (lin M) ws) (oscale d v)) -> rankZ ws = rankZ vs.
+Proof. exact supercell_lattice_rank_partial. Qed.
+Print Assumptions C09_supercell_lattice_rank_partial.
+Example C09_sublattice_example :
+  let vs := [(1, 1, 0); (1, -1, 0)]%Z in let vs' := [(2, 0, 0); (0, 2, 0)]%Z in
+  (forall v, In v vs' -> span vs v) /\ (forall v, In v vs -> span vs' (oscale 2 v)) /\ rank_det vs' = 2 /\ rank_det vs = 2.
+Proof. exact sublattice_example. Qed.
+Print Assumptions C09_sublattice_example.
